@@ -197,6 +197,68 @@ fn check_graph(name: &str, g: &Graph, cfg_base: &ExploreCfg) -> Acc {
     acc
 }
 
+/// the dynamic preferred solver (one incremental SAT solver for the whole framework): a DS query on
+/// a connected framework must stay within the preferred bound |CO| + |PR| + 1 under every oracle
+/// behaviour
+fn check_dynamic_preferred(rep: &mut Report, thorough: bool) {
+    use crate::dynamic::{construction_history, run_history, DynKind, Op, StepObs};
+    let graphs: Vec<Graph> = crate::universe::universe_upto(3).into_iter().filter(|g| g.n > 0 && g.is_connected()).collect();
+    let cfg = ExploreCfg { dev_bound: None, fv: FvPolicy::False, max_execs: 50_000, cap_alts: 64, ..ExploreCfg::default() };
+    let results: Vec<(ExploreStats, Vec<Violation>, i64)> = graphs
+        .par_iter()
+        .with_max_len(1)
+        .map(|g| {
+            let mut stats = ExploreStats::default();
+            let mut viol = vec![];
+            let mut min_slack = i64::MAX;
+            let bound = bound_for(g, BoundKind::Pr, Enc::AuxCO);
+            for sparse in [false, true] {
+                if sparse && !thorough && g.n == 3 {
+                    continue;
+                }
+                for a in 0..g.n {
+                    let mut h = construction_history(g, sparse);
+                    h.push(Op::Query { skeptical: true, arg: a as u8, cert: true });
+                    let c = ExploreCfg { call_limit: bound + 2, ..cfg.clone() };
+                    let r = explore(&c, &mut |f| run_history(DynKind::Preferred, &h, f), &mut |e: &Exec<Vec<StepObs>>| {
+                        let calls = e.calls.len();
+                        min_slack = min_slack.min(bound as i64 - calls as i64);
+                        if e.call_limit_hit || calls > bound {
+                            viol.push(Violation {
+                                property: "C18".into(),
+                                key: "solver=DynamicPreferredSemanticsSolver;symptom=bound_exceeded".into(),
+                                message: format!("DynamicPreferredSemanticsSolver, history [{}] choices {:?}: {} SAT calls for one DS query on a connected framework, bound {}", crate::dynamic::history_str(&h), e.choices, calls, bound),
+                                case: json!({"engine": "dynamic", "solver": DynKind::Preferred.name(), "history": h.iter().map(|o| o.to_json()).collect::<Vec<_>>(), "backend": "choicesat", "free_var_policy": "false", "choices": e.choices, "cap_alts": 64}),
+                            });
+                        }
+                    });
+                    if let Ok(st) = r {
+                        stats.add(&st);
+                    }
+                }
+            }
+            (stats, viol, min_slack)
+        })
+        .collect();
+    let mut total = ExploreStats::default();
+    let mut slack = i64::MAX;
+    for (st, v, ms) in results {
+        total.add(&st);
+        slack = slack.min(ms);
+        for x in v {
+            rep.add_violation(x);
+        }
+    }
+    rep.states += total.nodes;
+    rep.transitions += total.edges;
+    rep.traces += total.execs;
+    rep.evaluations += total.execs;
+    rep.extra.insert(
+        "space:dynamic preferred solver, DS query after building every connected framework of U(<=3) (compact and sparse ids), complete oracle tree".into(),
+        json!({"graphs": graphs.len(), "executions": total.execs, "min_slack_bound_minus_calls": slack, "alternative_cap_hit": total.alt_capped}),
+    );
+}
+
 pub fn run(tier: Tier) -> i32 {
     let mut rep = Report::new("C18", tier);
     let thorough = tier == Tier::Thorough;
@@ -270,6 +332,7 @@ pub fn run(tier: Tier) -> i32 {
         }
         rep.machinery_errors.extend(acc.machinery);
     }
+    check_dynamic_preferred(&mut rep, thorough);
     rep.extra.insert("min_slack_bound_minus_worst_calls".into(), json!(min_slack));
     rep.extra.insert("max_sat_calls_observed".into(), json!(max_calls));
     rep.rule = "cases = (graph, problem, encoder, argument, certificate flag); for each the COMPLETE tree of oracle behaviours (or deviation-bounded where stated) is executed with a counting oracle that aborts at bound+2 calls; the maximum over all behaviours is compared with the property's per-component bound computed from the reference model; distinct_nontrivial = queries whose tree has more than one execution".into();
